@@ -226,10 +226,11 @@ Proof.
   unfold spec_collapse_basal.
   destruct (2 <=? Z.of_nat (length k1)) eqn:E1.
   - assert (Hne : k1 <> []) by (destruct k1; [discriminate E1|discriminate]).
-    destruct (add_len_try_wf h (CNode CTop i x l e [] [T i1 x1 l1 e1 k1]) i0 x0 l0 e0 k0 i1 e1 W L1)
+    rewrite L1.
+    destruct (add_len_none_wf h (CNode CTop i x l e [] [T i1 x1 l1 e1 k1]) i0 x0 l0 e0 k0 e1 W)
       as [W1 [A1 [G1 P1]]].
-    set (h1 := add_len_try i0 i1 h) in *.
-    destruct (edge_collapse_wf h1 CTop i x l e [T i0 x0 l0 (try_add_len e0 e1) k0]
+    set (h1 := add_len_none i0 e1 h) in *.
+    destruct (edge_collapse_wf h1 CTop i x l e [T i0 x0 l0 (bump_len e1 e0) k0]
                 i1 x1 l1 e1 k1 [] false Hne W1) as [h2 [E2 [W2 [P2 G2]]]].
     rewrite E2. simpl hbind. simpl in W2. rewrite map_bump_none, app_nil_r in W2.
     pose proof (pres_trans _ _ _ P1 P2) as [Pn [Pr Ps]].
@@ -240,11 +241,12 @@ Proof.
     + split; [split; [exact W2|simpl; congruence]|]. repeat split; auto.
   - destruct (2 <=? Z.of_nat (length k0)) eqn:E0.
     + assert (Hne : k0 <> []) by (destruct k0; [discriminate E0|discriminate]).
-      destruct (add_len_try_wf h (CNode CTop i x l e [T i0 x0 l0 e0 k0] []) i1 x1 l1 e1 k1 i0 e0 W L0)
+      rewrite L0.
+      destruct (add_len_none_wf h (CNode CTop i x l e [T i0 x0 l0 e0 k0] []) i1 x1 l1 e1 k1 e0 W)
         as [W1 [A1 [G1 P1]]].
-      set (h1 := add_len_try i1 i0 h) in *.
+      set (h1 := add_len_none i1 e0 h) in *.
       destruct (edge_collapse_wf h1 CTop i x l e [] i0 x0 l0 e0 k0
-                  [T i1 x1 l1 (try_add_len e1 e0) k1] false Hne W1) as [h2 [E2 [W2 [P2 G2]]]].
+                  [T i1 x1 l1 (bump_len e0 e1) k1] false Hne W1) as [h2 [E2 [W2 [P2 G2]]]].
       rewrite E2. simpl hbind. simpl in W2. rewrite map_bump_none in W2.
       pose proof (pres_trans _ _ _ P1 P2) as [Pn [Pr Ps]].
       eexists. split; [reflexivity|].
